@@ -25,7 +25,7 @@ ASSUMPTIONS = [
     "WSGI ping interleavings use the controlled-thread engine (see C06) with a preemption bound of 1 (thorough 2)",
 ]
 
-ALPHA = ["a", " ", ":", "\r", "\n", "\x0b", "\x0c", "\x1c", "\x1d", "\x1e", "\x85", "\u2028", "\u2029"]
+ALPHA = ["a", " ", ":", "\r", "\n", "\x0b", "\x0c", "\x1c", "\x1d", "\x1e", "\x85", "\u2028", "\u2029", "\0"]
 MAXLEN = {"quick": 3, "thorough": 4}
 EXTRA = ["", ":", " ", "  x", ":x", "x:y", "data: x", "\r\n", "a\r\nb", "a\n\nb", "\n", "\na", "é", "中 文", "\U0001F600", "a\r", "a\r\n", "\r\r", "id: 5", "retry: 1"]
 MENU = [{"data": "one"}, {"event": "e", "data": "two\nlines"}, {"id": "7", "data": "a\u2028b"}, {"retry": 1500}, {"event": "only"}, {}, {"retry": 0}, {"id": "", "data": "x"}, {"event": "tick", "data": "1"}, {"event": "tick"}]
@@ -59,7 +59,7 @@ def judge_event(ev, blocks):
 
 def subsets():
     keys = ["event", "id", "retry"]
-    for vals in ({"event": "ev", "id": "i:1", "retry": 3000}, {"event": "0", "id": "", "retry": 0}):
+    for vals in ({"event": "ev", "id": "i:1", "retry": 3000}, {"event": "0", "id": "", "retry": 0}, {"event": "e\0v", "id": "9", "retry": 2 ** 53 + 1}):
         for n in range(4):
             for c in itertools.combinations(keys, n):
                 if n == 0 and vals["retry"] == 0:
@@ -321,15 +321,24 @@ def wsgi_threads(r, n, timeouts, tier, hold=0.0):
     r.sample({"wsgi_threads": {"events": n, "ping_timeouts": timeouts, "preemption_bound": 1 if tier == "quick" else 2}})
 
 
-def run_asgi(prefix, events, gate_sends=False):
+class SourceFailed(Exception):
+    pass
+
+
+def run_asgi(prefix, events, gate_sends=False, fails=False):
+    """fails: the events are ready at once (the source never waits between two of them) and right after the last one the source
+    raises: what was yielded before the failure still reaches the client, in order."""
     from baize.asgi import SendEventResponse
 
     obs = {"sent": [], "exc": None}
     with Session() as s:
         async def gen():
             for i, e in enumerate(events):
-                await s.env.gate(f"p{i}")
+                if not fails:
+                    await s.env.gate(f"p{i}")
                 yield dict(e)
+            if fails:
+                raise SourceFailed("source failed")
             await s.env.gate("pend")
 
         async def receive():
@@ -382,6 +391,23 @@ def asgi_sequences(r, k, tier="thorough"):
                 r.violation("asgi-seq:" + p[0], w, f"ASGI SendEventResponse over {events}, schedule {x.choices} ({npings} pings): {p[1]}")
 
         dfs(lambda prefix: run_asgi(prefix, events), on_exec)
+        if 1 <= len(seq) <= 3 and 5 not in seq:
+            def on_fail(x):
+                r.count("evaluations")
+                r.count("traces")
+                r.count("distinct_nontrivial")
+                o = x.obs
+                w = {"kind": "asgi_seq", "seq": list(seq), "schedule": list(x.choices), "gated": "fails" if not any(t.startswith("s0") for t in o.get("trace", [])) else "fails-gated", "fails": True}
+                body = b"".join(m.get("body", b"") for m in o["sent"] if m["type"] == "http.response.body")
+                if o["stuck"] or "SourceFailed" not in (o["exc"] or ""):
+                    r.violation("asgi-seq:source-failure-not-reported", w, f"ASGI SendEventResponse over {events} whose source then raises, schedule {x.choices}: stuck={o['stuck']} exc={o['exc']}")
+                    return
+                p = judge_stream(events, body, "utf-8")
+                if p:
+                    r.violation("asgi-seq:before-failure:" + p[0], w, f"ASGI SendEventResponse over {events} yielded without a pause, then the source raises; schedule {x.choices}: {p[1]}")
+            dfs(lambda prefix: run_asgi(prefix, events, fails=True), on_fail)
+            if len(seq) <= 2:
+                dfs(lambda prefix: run_asgi(prefix, events, gate_sends=True, fails=True), on_fail, bound=2)
         if 1 <= len(seq) <= 2 and seq[0] in (0, 2):
             dfs(lambda prefix: run_asgi(prefix, events, gate_sends=True), on_exec, bound=3)
         r.count("states", len(outcomes))
@@ -423,6 +449,11 @@ def run_shard(desc, tier):
         for name in ("x y", "é", "a:b", " sp"):
             check_one(r, "d", {"event": name}, "utf-8")
             check_one(r, "d", {"id": name}, "utf-8")
+        # integer retry values around every power of two and of ten up to 2^70: the digits a client reads are the integer's
+        for n in sorted({2 ** k + d for k in range(0, 71) for d in (-1, 0, 1)} | {10 ** k + d for k in range(0, 22) for d in (-1, 0, 1)}):
+            if n >= 0:
+                check_one(r, None, {"retry": n}, "utf-8")
+                check_one(r, "d", {"retry": n, "id": "1"}, "utf-8")
         r.count("states", 1)
         r.count("transitions", int(r.c["evaluations"]))
     elif desc[0] == "serialiser_pairs":
@@ -477,6 +508,12 @@ def replay(w):
     elif w["kind"] == "wsgi_seq":
         wsgi_sequences(r)
         r.viol = {k: v for k, v in r.viol.items() if v[1]["seq"] == w["seq"]}
+    elif w.get("fails"):
+        events = [dict(MENU[i]) for i in w["seq"]]
+        x = run_asgi(list(w["schedule"]), events, gate_sends=w["gated"] == "fails-gated", fails=True)
+        body = b"".join(m.get("body", b"") for m in x.obs["sent"] if m["type"] == "http.response.body")
+        p = judge_stream(events, body, "utf-8")
+        return bool(p or x.obs["stuck"] or "SourceFailed" not in (x.obs["exc"] or "")), {"problem": p, "stuck": x.obs["stuck"], "exc": x.obs["exc"], "body": body}
     else:
         events = [dict(MENU[i]) for i in w["seq"]]
         x = run_asgi(list(w["schedule"]), events, gate_sends=w.get("gated", False))
